@@ -542,4 +542,14 @@ def pregen(ctx):
                 errs.append(str(e))
     except Exception:
         errs.append("unit mcall (Model._call): pregen exception: " + traceback.format_exc()[-800:])
+    # independent unit: Model._run (model.py) -> coq/gen/Gen_mrun.v (translator vlib/py2coq_mrun.py, vocabulary base/CtxPrelude.v + MCallPrelude.v +
+    # MRunPrelude.v).  proofs/Gen_mrun_eq.v reads its callees in the hand model as Part C of proofs/Gen_mcall_eq.v does and proves the loop equal
+    # to run_op on the sequence.  The writer leaves its own stub on rejection; the units above do not depend on it.
+    try:
+        from vlib import py2coq_mrun
+        e = py2coq_mrun.pregen()
+        if e:
+            errs.append(str(e))
+    except Exception:
+        errs.append("unit mrun (Model._run): pregen exception: " + traceback.format_exc()[-800:])
     return None if not errs else "; ".join(errs)
